@@ -735,6 +735,13 @@ func MkQuant(forall bool, k *Term, lo, hi, body *Term) *Term {
 		}
 	}
 	rng := And(Le(lo, bv), Lt(bv, hi))
+	if forall && len(pats) == 0 {
+		// value-quantified: no array index to trigger on. Guard with the
+		// always-true predicate trig (axiom: forall x. trig(x)) and use it as
+		// the pattern, so that skolem witnesses of goals instantiate hypotheses.
+		tr := App("trig", SBool, bv)
+		return Forall([]*Term{bv}, Implies(And(tr, rng), body), []*Term{tr})
+	}
 	if forall {
 		return Forall([]*Term{bv}, Implies(rng, body), pats...)
 	}
